@@ -330,24 +330,7 @@ func (h H) storageExclusivity(rule string) {
 // monotoneStatus (C19.1) + stale snapshot requests ignored.
 func (h H) monotoneStatus(rule string) {
 	h.onlyWriters(rule+" who-may-write", "raft:Raft.commitIndex", "(*Raft).setCommitIndex", "(*Raft).onInstallSnapRequest", "(*Raft).Serve")
-	// install handler: everything that lowers/sets state is behind lastIndex > commitIndex
-	fn := h.fn("raft:(*Raft).onInstallSnapRequest")
-	want := core.MkAtom("installSnapReq.lastIndex", ">", "Raft.commitIndex")
-	n := 0
-	for _, spec := range []string{"raft:(*snapshots).new", "raft:(*storage).clearLog", "raft:(*Raft).compactLog"} {
-		cal := h.fn(spec)
-		for k, c := range h.P.CallsTo(fn, cal) {
-			n++
-			h.gate(rule+" stale-snapshot-ignored", h.site(fn, cal, k), c, want)
-		}
-	}
-	for _, s := range h.storesIn(fn, "raft:Raft.commitIndex") {
-		n++
-		h.gate(rule+" stale-snapshot-ignored", "(*Raft).onInstallSnapRequest store commitIndex", s.Instr, want)
-		v := h.P.Info(fn).Sym(storeVal(s.Instr)).String()
-		h.C.Check(rule+" commit-index-from-snapshot", "(*Raft).onInstallSnapRequest store commitIndex", isSnapIndexExpr(v, "Raft.storage"), h.pos(s.Instr), "after discarding the log the commit index must be the snapshot index; found "+v)
-	}
-	h.C.Floor(rule+" (state changes in install handler)", n, 4)
+	h.staleSnapshotIgnored(rule)
 	// Serve: initial commit index from the restored snapshot, before stateLoop
 	sv := h.fn("raft:(*Raft).Serve")
 	sl := h.fn("raft:(*Raft).stateLoop")
@@ -386,4 +369,27 @@ func (h H) monotoneStatus(rule string) {
 		}
 	})
 	h.C.Floor(rule+" (info fields)", seen, 5)
+}
+
+// staleSnapshotIgnored: in the install handler nothing is stored, reset or
+// compacted unless the request's lastIndex is strictly above the commit index.
+func (h H) staleSnapshotIgnored(rule string) {
+	// install handler: everything that lowers/sets state is behind lastIndex > commitIndex
+	fn := h.fn("raft:(*Raft).onInstallSnapRequest")
+	want := core.MkAtom("installSnapReq.lastIndex", ">", "Raft.commitIndex")
+	n := 0
+	for _, spec := range []string{"raft:(*snapshots).new", "raft:(*storage).clearLog", "raft:(*Raft).compactLog"} {
+		cal := h.fn(spec)
+		for k, c := range h.P.CallsTo(fn, cal) {
+			n++
+			h.gate(rule+" stale-snapshot-ignored", h.site(fn, cal, k), c, want)
+		}
+	}
+	for _, s := range h.storesIn(fn, "raft:Raft.commitIndex") {
+		n++
+		h.gate(rule+" stale-snapshot-ignored", "(*Raft).onInstallSnapRequest store commitIndex", s.Instr, want)
+		v := h.P.Info(fn).Sym(storeVal(s.Instr)).String()
+		h.C.Check(rule+" commit-index-from-snapshot", "(*Raft).onInstallSnapRequest store commitIndex", isSnapIndexExpr(v, "Raft.storage"), h.pos(s.Instr), "after discarding the log the commit index must be the snapshot index; found "+v)
+	}
+	h.C.Floor(rule+" (state changes in install handler)", n, 4)
 }
